@@ -26,9 +26,9 @@
    Anything Python defines but this file does not spell out evaluates to [RFail (FUnmodelled why)], which no theorem's
    right-hand side can produce.  CPython semantics of three builtins are shared with the model files (they are "what
    CPython does" in both places): bytes.strip = Socket.strip, int(b, 16) = Socket.int16, BytesIO.readline = Reader.upto_lf. *)
-From Coq Require Import ZArith NArith List String Bool.
+From Coq Require Import ZArith NArith List String Bool PrimFloat.
 From Coq.Strings Require Import Byte.
-From PyRtcm Require Import Base.Bytes Base.Dec Model.Types Model.Reader Model.Socket.
+From PyRtcm Require Import Base.Bytes Base.Dec Model.Types Model.Reader Model.Socket Model.Message.
 Import ListNotations.
 Open Scope string_scope.
 Open Scope Z_scope.
@@ -48,14 +48,19 @@ Inductive val :=
 | VBio (data:bytes) (pos:nat)
 | VRef (r:string)           (* a reference to an object of the environment *)
 | VOpq (o:Ob)
-| VUnbound.                 (* a local that has not been assigned yet; never the value of an expression *)
+| VUnbound                  (* a local that has not been assigned yet; never the value of an expression *)
+(* ---- added for the message decoder (RTCMMessage._do_attributes ... _getsatcellmaps) ---- *)
+| VFloat (f:float)          (* IEEE-754 binary64 (PrimFloat), only as a resolution and a scaled value *)
+| VUStr (u:list N)          (* a str as a list of code points (what chr() makes; VStr is for ASCII names and texts) *)
+| VList (l:list val)        (* a list; value semantics -- the translator checks the discipline that makes this exact, see gen_src2.py *)
+| VDict (d:list (val * val)).  (* a dict with int / str keys, insertion ordered *)
 
 Inductive fail := FUnmodelled (why:string) | FOutOfFuel | FNoMethod (m:string) | FArity (m:string).
 Inductive res (A:Type) := ROk (a:A) | RExc (cls:string) | RFail (f:fail).
 Arguments ROk {A}. Arguments RExc {A}. Arguments RFail {A}.
 
 Inductive unop := UNot | UInv | UNeg.
-Inductive binop := OAdd | OSub | OMul | OShl | OShr | OAnd | OOr | OXor.
+Inductive binop := OAdd | OSub | OMul | OShl | OShr | OAnd | OOr | OXor | ODiv.
 Inductive cmpop := CEq | CNe | CLt | CLe | CGt | CGe | CIn | CNotIn | CIs | CIsNot.
 Inductive builtin :=
 | BLen                      (* len(x) *)
@@ -68,6 +73,11 @@ Inductive builtin :=
 | BFromBig                  (* int.from_bytes(x, "big") *)
 | BStrOf                    (* str(x) / the f-string piece {x} for an int or a str *)
 | BFmtD (w:nat)             (* the f-string piece {x:0<w>d} for a non-negative int (w = 2, 3) *)
+| BChr                      (* chr(x) *)
+| BPopcount                 (* bin(x).count("1") *)
+| BSplit                    (* x.split(sep) for a one-character sep *)
+| BIntStr                   (* int(x) for a str of decimal digits, or an int *)
+| BIsTuple | BIsInt         (* isinstance(x, tuple) / isinstance(x, int) *)
 | BText.                    (* an f-string / string used as message text: parts evaluated, value not modelled *)
 
 Record callsig := { c_name : string; c_kw : list string }.   (* environment callee; names of the keyword arguments, in order *)
@@ -94,7 +104,14 @@ Inductive expr :=
    [reserved] = the names bound in the class body (methods, properties): dynamic access to those is not modelled *)
 | EGetattrSelf (reserved:list string) (name:expr) (default:option expr)   (* getattr(self, name[, default]) *)
 | ESetattrSelf (reserved:list string) (name v:expr)                       (* setattr(self, name, v)  and  self.<name> = v *)
-| ESuperSetattr (name v:expr).                                            (* super().__setattr__(name, v): object's own, a plain store *)
+| ESuperSetattr (name v:expr)                                             (* super().__setattr__(name, v): object's own, a plain store *)
+(* ---- added for the message decoder ---- *)
+| EIf (c a b:expr)                         (* a if c else b *)
+| EListLit (l:list expr)                   (* [e1, ..] *)
+| EDictEmpty                               (* {} *)
+| EListAppend (x:string) (v:expr)          (* x.append(v) for a local x holding a list *)
+| EListPop (x:string)                      (* x.pop() *)
+| EMethGet (obj k d:expr).                 (* obj.get(k, d) on a dict, or on a table of the environment *)
 
 Inductive target := TVar (x:string) | TSelf (a:string) | TTuple (l:list target).
 
@@ -107,7 +124,11 @@ Inductive stmt :=
 | SBreak | SContinue | SPass
 | SReturn (e:expr)
 | SRaise (e:expr)                          (* raise e   /   raise e from e' (the cause is not modelled) *)
-| STry (body:list stmt) (handlers:list (list string * option string * list stmt)).
+| STry (body:list stmt) (handlers:list (list string * option string * list stmt))
+| SFor (t:target) (it:iter) (body:list stmt)   (* for t in range(e) / for t in e *)
+| SSetItemLocal (x:string) (k e:expr)          (* x[k] = e for a local x holding a list / dict *)
+| SSetItemSelf (a:string) (k e:expr)           (* self.a[k] = e: item assignment on the object held by the attribute (no __setattr__) *)
+with iter := ItRange (e:expr) | ItValue (e:expr).
 
 Record method := { m_params : list string; m_locals : list string; m_body : list stmt }.
 
@@ -155,6 +176,10 @@ Definition truth (v:val) : res bool :=
   | VTuple l => ROk (match l with [] => false | _ => true end)
   | VExc _ | VBio _ _ | VRef _ | VOpq _ => ROk true      (* default object truth (no __bool__/__len__ on these here) *)
   | VText => RFail (FUnmodelled "truth of a message text")
+  | VFloat f => ROk (negb (PrimFloat.eqb f 0%float))
+  | VUStr u => ROk (match u with [] => false | _ => true end)
+  | VList l => ROk (match l with [] => false | _ => true end)
+  | VDict d => ROk (match d with [] => false | _ => true end)
   | VUnbound => RFail (FUnmodelled "truth of unbound")
   end.
 
@@ -164,10 +189,23 @@ Definition int_binop (o:binop) (a b:Z) : res val :=
   | OShl => if b <? 0 then RExc "ValueError" else ROk (VInt (Z.shiftl a b))
   | OShr => if b <? 0 then RExc "ValueError" else ROk (VInt (Z.shiftr a b))
   | OAnd => ROk (VInt (Z.land a b)) | OOr => ROk (VInt (Z.lor a b)) | OXor => ROk (VInt (Z.lxor a b))
+  | ODiv => RFail (FUnmodelled "true division")
   end.
 Definition binop_val (o:binop) (a b:val) : res val :=
   match a, b with
   | VInt x, VInt y => int_binop o x y
+  | VInt x, VFloat f => match o with
+                        | OMul => if Z.abs x <? 2 ^ 53 then ROk (VFloat (float_of_Z x * f)%float) else RFail (FUnmodelled "int beyond 2^53 times float")
+                        | _ => RFail (FUnmodelled "float arithmetic") end
+  | VFloat f, VInt x => match o with
+                        | OMul => if Z.abs x <? 2 ^ 53 then ROk (VFloat (f * float_of_Z x)%float) else RFail (FUnmodelled "int beyond 2^53 times float")
+                        | _ => RFail (FUnmodelled "float arithmetic") end
+  | VFloat _, VFloat _ => RFail (FUnmodelled "float arithmetic")
+  | VStr x, VUStr y => match o with OAdd => ROk (VUStr (codes x ++ y)%list) | _ => RExc "TypeError" end
+  | VUStr x, VStr y => match o with OAdd => ROk (VUStr (x ++ codes y)%list) | _ => RExc "TypeError" end
+  | VUStr x, VUStr y => match o with OAdd => ROk (VUStr (x ++ y)%list) | _ => RExc "TypeError" end
+  | VList x, VList y => match o with OAdd => ROk (VList (x ++ y)%list) | _ => RExc "TypeError" end
+  | (VFloat _ | VUStr _ | VList _ | VDict _), _ | _, (VFloat _ | VUStr _ | VList _ | VDict _) => RFail (FUnmodelled "operand kind")
   | VBytes x, VBytes y => match o with OAdd => ROk (VBytes (x ++ y)%list) | _ => RExc "TypeError" end
   | VText, _ | _, VText => RFail (FUnmodelled "message text operand")
   | VBool _, _ | _, VBool _ => RFail (FUnmodelled "bool operand")
@@ -198,6 +236,12 @@ Definition eq_val (a b:val) : option bool :=
   | VNone, (VInt _ | VBytes _ | VStr _ | VBool _ | VTuple _) | (VInt _ | VBytes _ | VStr _ | VBool _ | VTuple _), VNone => Some false
   | VBytes _, (VInt _ | VStr _) | (VInt _ | VStr _), VBytes _ => Some false
   | VInt _, VStr _ | VStr _, VInt _ => Some false
+  | VFloat f, VInt z | VInt z, VFloat f => if Z.abs z <? 2 ^ 53 then Some (PrimFloat.eqb f (float_of_Z z)) else None
+  | VFloat f, VFloat g => Some (PrimFloat.eqb f g)
+  | VUStr _, VInt _ | VInt _, VUStr _ => Some false
+  | VUStr x, VUStr y => Some (if list_eq_dec N.eq_dec x y then true else false)
+  | VStr x, VUStr y | VUStr y, VStr x => Some (if list_eq_dec N.eq_dec (codes x) y then true else false)
+  | VNone, (VFloat _ | VUStr _ | VList _ | VDict _) | (VFloat _ | VUStr _ | VList _ | VDict _), VNone => Some false
   | _, _ => None
   end.
 Fixpoint mem_val (a:val) (l:list val) : option bool :=
@@ -209,6 +253,31 @@ Fixpoint mem_val (a:val) (l:list val) : option bool :=
 (* needle in hay, on str (code units are bytes here: names, identities, descriptions are ASCII) *)
 Definition str_contains (needle hay:string) : bool :=
   match String.index 0 needle hay with Some _ => true | None => false end.
+(* d[k] / d.get(k): None = keys not comparable here *)
+Fixpoint dict_get (k:val) (d:list (val * val)) : option (option val) :=
+  match d with
+  | [] => Some None
+  | (k', v)::r => match eq_val k' k with Some true => Some (Some v) | Some false => dict_get k r | None => None end
+  end.
+Fixpoint dict_set (k v:val) (d:list (val * val)) : option (list (val * val)) :=
+  match d with
+  | [] => Some [(k, v)]
+  | (k', v')::r => match eq_val k' k with
+                   | Some true => Some ((k', v)::r)
+                   | Some false => match dict_set k v r with Some r' => Some ((k', v')::r') | None => None end
+                   | None => None end
+  end.
+(* l[i] and l[i] = v on a list / tuple: negative indices count from the end *)
+Definition list_pos (n:nat) (i:Z) : option nat :=
+  if i <? 0 then (if Z.of_nat n + i <? 0 then None else Some (Z.to_nat (Z.of_nat n + i)))
+  else if i <? Z.of_nat n then Some (Z.to_nat i) else None.
+Definition index_list (l:list val) (i:Z) : res val :=
+  match list_pos (List.length l) i with
+  | Some k => match nth_error l k with Some v => ROk v | None => RExc "IndexError" end
+  | None => RExc "IndexError" end.
+Fixpoint set_nth (k:nat) (v:val) (l:list val) : list val :=
+  match l, k with [], _ => [] | _::r, O => v::r | x::r, S k' => x :: set_nth k' v r end.
+
 Definition cmp_val (o:cmpop) (a b:val) : res bool :=
   let unm := RFail (FUnmodelled "comparison") in
   match o with
@@ -221,10 +290,12 @@ Definition cmp_val (o:cmpop) (a b:val) : res bool :=
   | CIn => match b with
            | VTuple l => match mem_val a l with Some r => ROk r | None => unm end
            | VStr hay => match a with VStr needle => ROk (str_contains needle hay) | _ => RExc "TypeError" end
+           | VList l => match mem_val a l with Some r => ROk r | None => unm end
            | _ => unm end
   | CNotIn => match b with
               | VTuple l => match mem_val a l with Some r => ROk (negb r) | None => unm end
               | VStr hay => match a with VStr needle => ROk (negb (str_contains needle hay)) | _ => RExc "TypeError" end
+              | VList l => match mem_val a l with Some r => ROk (negb r) | None => unm end
               | _ => unm end
   | CIs => match b with
            | VNone => match a with VNone => ROk true | VUnbound => unm | _ => ROk false end
@@ -259,10 +330,20 @@ Definition slice_str (t:string) (lo hi:option Z) : string :=
 
 Fixpoint le_acc (l:bytes) : N := match l with [] => 0%N | b::r => (bN b + 256 * le_acc r)%N end.   (* little-endian *)
 
+(* t.split(c) for a single character c: the pieces between occurrences of c *)
+Fixpoint split_char (c:Ascii.ascii) (t:string) : list string :=
+  match t with
+  | EmptyString => [EmptyString]
+  | String a r => if Ascii.eqb a c then EmptyString :: split_char c r
+                  else match split_char c r with [] => [String a EmptyString] | h::tl => String a h :: tl end
+  end.
+
 Definition builtin_val (f:builtin) (args:list val) : res val :=
   match f, args with
   | BLen, [VBytes b] => ROk (VInt (Z.of_nat (List.length b)))
   | BLen, [VTuple l] => ROk (VInt (Z.of_nat (List.length l)))
+  | BLen, [VList l] => ROk (VInt (Z.of_nat (List.length l)))
+  | BLen, [VDict d] => ROk (VInt (Z.of_nat (List.length d)))
   | BLen, [_] => RFail (FUnmodelled "len")
   | BBytes, [VBytes b] => ROk (VBytes b)
   | BBytes, [_] => RFail (FUnmodelled "bytes()")
@@ -285,6 +366,18 @@ Definition builtin_val (f:builtin) (args:list val) : res val :=
   | BStrOf, [_] => RFail (FUnmodelled "str()")
   | BFmtD w, [VInt z] => if (0 <=? z) && (z <? 10 ^ 4300) then ROk (VStr (fmt_d w (Z.to_N z))) else RFail (FUnmodelled "format of a negative / huge int")
   | BFmtD _, [_] => RFail (FUnmodelled "format spec d on a non-int")
+  | BChr, [VInt z] => if (0 <=? z) && (z <? 1114112) then ROk (VUStr [Z.to_N z]) else RExc "ValueError"
+  | BChr, [_] => RFail (FUnmodelled "chr")
+  | BPopcount, [VInt z] => ROk (VInt (popcount (Z.to_N (Z.abs z))))
+  | BPopcount, [_] => RFail (FUnmodelled "bin().count")
+  | BSplit, [VStr t; VStr (String c EmptyString)] => ROk (VList (map VStr (split_char c t)))
+  | BSplit, [_; _] => RFail (FUnmodelled "split")
+  | BIntStr, [VInt z] => ROk (VInt z)
+  | BIntStr, [VStr t] => match N_of_str t with Some n => ROk (VInt (Z.of_N n)) | None => RFail (FUnmodelled "int() of a str that is not plain digits") end
+  | BIntStr, [_] => RFail (FUnmodelled "int()")
+  | BIsTuple, [VUnbound] | BIsInt, [VUnbound] => RFail (FUnmodelled "isinstance of unbound")
+  | BIsTuple, [v] => ROk (VBool (match v with VTuple _ => true | _ => false end))
+  | BIsInt, [v] => ROk (VBool (match v with VInt _ | VBool _ => true | _ => false end))
   | BMin, [VInt a; VInt b] => ROk (VInt (Z.min a b))
   | BMin, [_; _] => RFail (FUnmodelled "min")
   | BText, _ => ROk VText
@@ -379,10 +472,16 @@ Fixpoint eval (e:expr) (s:state) {struct e} : res val * state :=
   | EIndex a i => match eval a s with
                   | (ROk va, s1) => match eval i s1 with
                                     | (ROk vi, s2) =>
-                                        (match va, vi with
-                                         | VBytes b, VInt k => index_bytes b k
-                                         | _, _ => RFail (FUnmodelled "subscript")
-                                         end, s2)
+                                        match va, vi with
+                                        | VBytes b, VInt k => (index_bytes b k, s2)
+                                        | (VList l | VTuple l), VInt k => (index_list l k, s2)
+                                        | VDict d, _ => (match dict_get vi d with
+                                                         | Some (Some v) => ROk v | Some None => RExc "KeyError"
+                                                         | None => RFail (FUnmodelled "dict key") end, s2)
+                                        | VNone, _ => (RExc "TypeError", s2)
+                                        | VOpq _, _ => let '(r, w') := ext {| c_name := "[]"; c_kw := [] |} [va; vi] (world s2) in (r, set_world w' s2)
+                                        | _, _ => (RFail (FUnmodelled "subscript"), s2)
+                                        end
                                     | other => other end
                   | other => other end
   | ESlice a lo hi =>
@@ -483,7 +582,7 @@ Fixpoint eval (e:expr) (s:state) {struct e} : res val * state :=
           | (ROk v, s2) =>
               if existsb (String.eqb n) reserved then (RFail (FUnmodelled "setattr of a name bound in the class"), s2) else
               match M "__setattr__" with
-              | None => ret VNone (set_self (setattr n v (self s2)) s2)
+              | None => (RFail (FNoMethod "__setattr__"), s2)
               | Some g => let '(r, (a', w')) := g [VStr n; v] (self s2) (world s2) in
                           (r, {| locals := locals s2; self := a'; world := w' |})
               end
@@ -500,6 +599,55 @@ Fixpoint eval (e:expr) (s:state) {struct e} : res val * state :=
           | other => other
           end
       | (ROk _, s1) => (RFail (FUnmodelled "setattr name"), s1)
+      | other => other
+      end
+  | EIf c a b =>
+      match eval c s with
+      | (ROk vc, s1) => match truth vc with
+                        | ROk true => eval a s1
+                        | ROk false => eval b s1
+                        | RExc x => (RExc x, s1) | RFail f => (RFail f, s1) end
+      | other => other
+      end
+  | EListLit l => match eval_list l s with
+                  | (ROk vs, s1) => ret (VList vs) s1
+                  | (RExc c, s1) => (RExc c, s1) | (RFail f, s1) => (RFail f, s1) end
+  | EDictEmpty => ret (VDict []) s
+  | EListAppend x ev =>
+      match eval ev s with
+      | (ROk v, s1) =>
+          match lookup x (locals s1) with
+          | Some (VList l) => ret VNone (set_locals (update x (VList (l ++ [v])%list) (locals s1)) s1)
+          | Some VUnbound | None => (RExc "UnboundLocalError", s1)
+          | Some _ => (RFail (FUnmodelled "append on a non-list"), s1)
+          end
+      | other => other
+      end
+  | EListPop x =>
+      match lookup x (locals s) with
+      | Some (VList l) => match rev l with
+                          | [] => (RExc "IndexError", s)
+                          | v::r => ret v (set_locals (update x (VList (rev r)) (locals s)) s)
+                          end
+      | Some VUnbound | None => (RExc "UnboundLocalError", s)
+      | Some _ => (RFail (FUnmodelled "pop on a non-list"), s)
+      end
+  | EMethGet eo ek ed =>
+      match eval eo s with
+      | (ROk vo, s1) =>
+          match eval ek s1 with
+          | (ROk vk, s2) =>
+              match eval ed s2 with
+              | (ROk vd, s3) =>
+                  match vo with
+                  | VDict d => (match dict_get vk d with
+                                | Some (Some v) => ROk v | Some None => ROk vd
+                                | None => RFail (FUnmodelled "dict key") end, s3)
+                  | VOpq _ => let '(r, w') := ext {| c_name := ".get"; c_kw := [] |} [vo; vk; vd] (world s3) in (r, set_world w' s3)
+                  | _ => (RFail (FUnmodelled ".get on a non-dict"), s3)
+                  end
+              | other => other end
+          | other => other end
       | other => other
       end
   end.
@@ -527,8 +675,8 @@ Fixpoint assign (t:target) (v:val) (s:state) {struct t} : res unit * state :=
   | TVar x => (ROk tt, set_locals (update x v (locals s)) s)
   | TSelf a => (ROk tt, set_self (setattr a v (self s)) s)
   | TTuple ts => match v with
-                 | VTuple vs => assign_list ts vs s
-                 | _ => (RFail (FUnmodelled "unpacking a non-tuple"), s)
+                 | VTuple vs | VList vs => assign_list ts vs s
+                 | _ => (RFail (FUnmodelled "unpacking a non-sequence"), s)
                  end
   end.
 
@@ -560,6 +708,45 @@ Section While.
         end
     end.
 End While.
+
+(* the values a `for` runs over: range(n); the elements of a list / tuple; the keys of a dict; for a table of the environment
+   its keys, asked of the environment (callee "iter") *)
+Definition iter_values (it:iter) (s:state) : res (list val) * state :=
+  match it with
+  | ItRange e => match eval e s with
+                 | (ROk (VInt n), s1) => (ROk (map (fun i => VInt (Z.of_nat i)) (seq 0 (Z.to_nat n))), s1)
+                 | (ROk _, s1) => (RFail (FUnmodelled "range of a non-int"), s1)
+                 | (RExc c, s1) => (RExc c, s1) | (RFail f, s1) => (RFail f, s1) end
+  | ItValue e => match eval e s with
+                 | (ROk (VList l), s1) | (ROk (VTuple l), s1) => (ROk l, s1)
+                 | (ROk (VDict d), s1) => (ROk (map fst d), s1)
+                 | (ROk (VOpq o), s1) =>
+                     let '(r, w') := ext {| c_name := "iter"; c_kw := [] |} [VOpq o] (world s1) in
+                     (match r with
+                      | ROk (VList l) | ROk (VTuple l) => ROk l
+                      | ROk _ => RFail (FUnmodelled "iter() of the environment")
+                      | RExc c => RExc c | RFail f => RFail f end, set_world w' s1)
+                 | (ROk _, s1) => (RFail (FUnmodelled "iteration over this kind of value"), s1)
+                 | (RExc c, s1) => (RExc c, s1) | (RFail f, s1) => (RFail f, s1) end
+  end.
+
+Section ForLoop.
+  Variable bind : val -> state -> res unit * state.     (* assignment of the loop target *)
+  Variable body : state -> res ctl * state.
+  Fixpoint floop (vs:list val) (s:state) : res ctl * state :=
+    match vs with
+    | [] => (ROk CNext, s)
+    | v::r => match bind v s with
+              | (ROk _, s1) => match body s1 with
+                               | (ROk CNext, s2) | (ROk CCont, s2) => floop r s2
+                               | (ROk CBreak, s2) => (ROk CNext, s2)
+                               | (ROk (CRet x), s2) => (ROk (CRet x), s2)
+                               | (RExc c, s2) => (RExc c, s2) | (RFail f, s2) => (RFail f, s2)
+                               end
+              | (RExc c, s1) => (RExc c, s1) | (RFail f, s1) => (RFail f, s1)
+              end
+    end.
+End ForLoop.
 
 Definition matches (cls:string) (hs:list string) : bool := existsb (subclass cls) hs.
 
@@ -631,6 +818,51 @@ Fixpoint exec (st:stmt) (s:state) {struct st} : res ctl * state :=
           pick handlers
       | other => other
       end
+  | SSetItemLocal x ek ev =>
+      (* Python: value first, then the key *)
+      match eval ev s with
+      | (ROk v, s0) =>
+          match eval ek s0 with
+          | (ROk vk, s1) =>
+              match lookup x (locals s1), vk with
+              | Some (VList l), VInt i => match list_pos (List.length l) i with
+                                          | Some k => (ROk CNext, set_locals (update x (VList (set_nth k v l)) (locals s1)) s1)
+                                          | None => (RExc "IndexError", s1) end
+              | Some (VDict d), _ => match dict_set vk v d with
+                                     | Some d' => (ROk CNext, set_locals (update x (VDict d') (locals s1)) s1)
+                                     | None => (RFail (FUnmodelled "dict key"), s1) end
+              | (Some VUnbound | None), _ => (RExc "UnboundLocalError", s1)
+              | _, _ => (RFail (FUnmodelled "item assignment"), s1)
+              end
+          | (RExc c, s1) => (RExc c, s1) | (RFail f, s1) => (RFail f, s1)
+          end
+      | (RExc c, s0) => (RExc c, s0) | (RFail f, s0) => (RFail f, s0)
+      end
+  | SSetItemSelf a ek ev =>
+      match eval ev s with
+      | (ROk v, s0) =>
+          match lookup a (self s0) with
+          | None => (RExc "AttributeError", s0)
+          | Some vo =>
+              match eval ek s0 with
+              | (ROk vk, s1) =>
+                  match vo with
+                  | VDict d => match dict_set vk v d with
+                               | Some d' => (ROk CNext, set_self (setattr a (VDict d') (self s1)) s1)
+                               | None => (RFail (FUnmodelled "dict key"), s1) end
+                  | VNone => (RExc "TypeError", s1)
+                  | _ => (RFail (FUnmodelled "item assignment on an attribute"), s1)
+                  end
+              | (RExc c, s1) => (RExc c, s1) | (RFail f, s1) => (RFail f, s1)
+              end
+          end
+      | (RExc c, s0) => (RExc c, s0) | (RFail f, s0) => (RFail f, s0)
+      end
+  | SFor t it body =>
+      match iter_values it s with
+      | (ROk vs, s1) => floop (assign t) (exec_list body) vs s1
+      | (RExc c, s1) => (RExc c, s1) | (RFail f, s1) => (RFail f, s1)
+      end
   end.
 
 Fixpoint exec_list (l:list stmt) (s:state) {struct l} : res ctl * state :=
@@ -664,6 +896,7 @@ End Lang.
 
 Arguments VNone {Ob}. Arguments VBool {Ob}. Arguments VInt {Ob}. Arguments VBytes {Ob}. Arguments VStr {Ob}. Arguments VText {Ob}. Arguments VText {Ob}.
 Arguments VTuple {Ob}. Arguments VExc {Ob}. Arguments VBio {Ob}. Arguments VRef {Ob}. Arguments VOpq {Ob}. Arguments VUnbound {Ob}.
+Arguments VFloat {Ob}. Arguments VUStr {Ob}. Arguments VList {Ob}. Arguments VDict {Ob}.
 Arguments ROk {A}. Arguments RExc {A}. Arguments RFail {A}.
 
 (* a program: methods of one class; each may call only the ones AFTER it in the list (callee later), so no recursion *)
@@ -679,4 +912,16 @@ Fixpoint link (p:list (string * method)) : string -> option (mcall Ob W) :=
   end.
 Definition run (p:list (string * method)) (m:string) : mcall Ob W :=
   match link p m with Some g => g | None => fun _ a w => (RFail (FNoMethod m), (a, w)) end.
+
+(* a class whose methods call each other recursively (the message decoder): every method may call every method, with a call-depth
+   budget d; at depth 0 no method is found ([FNoMethod]: a failure, never a normal result) *)
+Fixpoint find_method (g:string) (p:list (string * method)) : option method :=
+  match p with [] => None | (n, m)::r => if String.eqb g n then Some m else find_method g r end.
+Fixpoint rlink (p:list (string * method)) (d:nat) : string -> option (mcall Ob W) :=
+  match d with
+  | O => fun _ => None
+  | S d' => fun g => match find_method g p with Some m => Some (call Ob W ext (rlink p d') wfuel g m) | None => None end
+  end.
+Definition rrun (p:list (string * method)) (d:nat) (m:string) : mcall Ob W :=
+  match rlink p d m with Some g => g | None => fun _ a w => (RFail (FNoMethod m), (a, w)) end.
 End Link.
